@@ -251,7 +251,7 @@ theorem kstep_opPick {s : St} (b : Bij s) (call pn : Nat) (m : String) (ctx : Ct
                 · exact KStep.refl s
                 · simp only
                   split
-                  · exact (show KStep s { s with rr := (s.rr + 1) % 2 ^ 32 } from kstep_of_same ⟨rfl, rfl, rfl⟩).trans
+                  · exact (show KStep s { s with rr := (s.rr + 1) % 2 ^ 64 } from kstep_of_same ⟨rfl, rfl, rfl⟩).trans
                       (kstep_finishPick _ _ _ _ _ _ _ _ _)
                   · exact kstep_of_same ⟨rfl, rfl, rfl⟩
               · have h1 := kstep_chooseSlot b c l key
@@ -711,7 +711,7 @@ theorem ext2_opPick {s : St} (t : Tables s) (call pn : Nat) (m : String) (ctx : 
                 · exact Ext2.refl s
                 · simp only
                   split
-                  · exact (show Ext2 s { s with rr := (s.rr + 1) % 2 ^ 32 } from (ext2_of_same rfl rfl)).trans
+                  · exact (show Ext2 s { s with rr := (s.rr + 1) % 2 ^ 64 } from (ext2_of_same rfl rfl)).trans
                       (ext2_finishPick _ _ _ _ _ _ _ _ _)
                   · exact (ext2_of_same rfl rfl)
               · have h1 := ext2_chooseSlot t c l key
